@@ -60,10 +60,12 @@ KERNELS_OF = {
     "C09": ["lazy_move_into_trace", "lazy_clone_into_trace", "value_move_into_trace", "temp_move_into_trace"],
     "C10": ["reserve", "reserve_exact", "shrink_to_fit", "shrink_to", "heap_expand", "expand_exact_default",
             "anyvec_reserve_trace", "anyvec_reserve_exact_trace", "anyvec_shrink_to_fit_trace", "anyvec_shrink_to_trace", "anyvec_set_len_trace", "anyvec_capacity_trace", "raw_capacity_trace", "raw_drop_trace", "typed_reserve_trace", "typed_reserve_exact_trace", "typed_shrink_to_fit_trace", "typed_shrink_to_trace", "typed_set_len_trace", "typed_capacity_trace", "mem_expand_default_trace", "mem_expand_exact_default_trace", "heap_build_with_size_trace"],
-    "C11": ["stack_build", "stackn_build", "stackn_size", "reserve_one", "expand_one"],
+    "C11": ["stack_build", "stackn_build", "stackn_size", "reserve_one", "expand_one", "stack_mem_accessors", "stackn_mem_accessors",
+            "empty_mem_accessors"],
     "C12": ["as_bytes_view", "as_bytes_mut_view", "spare_bytes_mut_view", "as_slice_view", "as_mut_slice_view",
             "spare_capacity_mut_view", "stack_mem_align", "stackn_mem_align", "stack_max_align",
-            "element_ptr_at_off", "element_mut_ptr_at_off"],
+            "element_ptr_at_off", "element_mut_ptr_at_off", "heap_mem_accessors", "stack_mem_accessors", "stackn_mem_accessors",
+            "empty_mem_accessors", "mem_mod_helpers"],
     "C13": ["anyvec_get_trace", "anyvec_get_mut_trace", "anyvec_at_trace", "anyvec_at_mut_trace", "typed_get_trace",
             "typed_get_mut_trace", "typed_at_trace", "typed_at_mut_trace", "anyvec_iter_trace", "anyvec_iter_mut_trace",
             "value_swap_unchecked_trace", "anyvec_insert_unchecked_trace", "anyvec_push_unchecked_trace", "anyvec_get_unchecked_trace", "anyvec_get_unchecked_mut_trace", "typed_iter_mut_trace", "typed_get_unchecked_trace", "typed_get_unchecked_mut_trace", "opsiter_next_trace", "opsiter_next_back_trace", "opsiter_len_trace", "opsiter_size_hint_trace", "temp_bytes_len_trace", "temp_size_trace", "temp_as_bytes_ptr_trace", "temp_clone_into_trace", "element_size_trace", "element_value_typeid_trace", "element_clone_into_trace", "lib_copy_nonoverlapping_value_trace", "ptr_element_size_trace", "ptr_element_typeid_trace"],
@@ -73,7 +75,7 @@ KERNELS_OF = {
             "temp_drop_cmds", "splice_drop_pre_cmds", "splice_drop_post_cmds"],
     "C07": ["pop_new", "remove_new", "swap_remove_new", "drain_new", "splice_new", "temp_drop_cmds", "drain_drop_cmds"],
     "C17": ["anyvec_into_raw_parts_fields", "anyvec_from_raw_parts_fields", "raw_parts_clone_fields", "heapmem_from_raw_parts_fields",
-            "heap_build_fields", "heapmem_into_raw_parts_text"],
+            "heap_build_fields", "heapmem_into_raw_parts_text", "empty_mem_accessors", "heap_mem_accessors"],
     "C18": ["heap_resize_cmds", "heap_drop_resize"],
 }
 
